@@ -314,10 +314,11 @@ func runCase(kp hx.KeyPair, acc *revocation.Accumulator, sacc *revocation.Signed
 			return
 		}
 		proofU, err := icm.Proofs.GetFirstProofU()
-		if err != nil || icm.Nonce2 == nil {
+		if err != nil {
 			outcome = "issuer-reject"
 			return
 		}
+		// (a missing nonce is the library's to refuse: the issuer role does not look at it)
 		ism, err = gabi.NewIssuer(kp.SK, kp.PK, ctxView).IssueSignature(proofU.U, A.attrs, A.witness, icm.Nonce2, A.blind)
 		if err != nil {
 			outcome = "issuer-reject"
